@@ -588,6 +588,18 @@ pub fn run(op: &str, a: &Ints) -> Ints {
                 Ok(out)
             }),
         },
+        // negative control of the equality the round trip is judged by: two constructed objects A, B (B = A perturbed in
+        // one place by the driver): `0 same(A,B) same(B,A) same(A,A)` through the payload type's own PartialEq;
+        // 1 = a constructor returned an error, 2 = abort
+        "neq" => match catch_unwind(AssertUnwindSafe(|| -> Result<(Tagged, Tagged), ()> {
+            let a = read_obj(&mut r)?; // (an error leaves the reader inside A: B is not read then)
+            let b = read_obj(&mut r)?;
+            Ok((a, b))
+        })) {
+            Err(_) => vec![2],
+            Ok(Err(())) => vec![1],
+            Ok(Ok((a, b))) => guard(|| Ok(vec![a.same(&b) as i128, b.same(&a) as i128, a.same(&a) as i128])),
+        },
         // the pickle protocol of the Python-visible class, through the interpreter (hook H4):
         //   0 state_is_bincode_of_object rebuilt_equals_original queries_identical n_queries
         "pk" => match catch_unwind(AssertUnwindSafe(|| read_obj(&mut r))) {
